@@ -701,6 +701,10 @@ class Interp(object):
         except BaseException as ex:
             svc.last_raised = ex
             raise
+        finally:
+            hook = getattr(self.env, 'on_body_done', None)
+            if hook is not None:
+                hook()          # what follows in this thread is the recorder's finalisation of the operation
         res = {'obs': obs}
         svc.last_result = res
         return res
